@@ -334,3 +334,36 @@ def parse_dump_records(path, var):
                     d[k] = int(v)
             seq.append(d)
         yield seq
+
+
+def parse_sim_trace(path):
+    """Parse a TLC -simulate behaviour file: returns (first_state_text, last_state_text)."""
+    txt = open(path).read()
+    states = re.split(r"^STATE_\d+ ==\s*$", txt, flags=re.M)[1:]
+    if not states:
+        return None, None
+    return states[0], states[-1]
+
+
+def state_var(state_text, var):
+    m = re.search(r"^(?:/\\ )?%s = (.*?)(?=^(?:/\\ )?\w+ = |^=+$|^\s*$|\Z)" % re.escape(var), state_text, flags=re.M | re.S)
+    return m.group(1).strip() if m else None
+
+
+def flat_records(body):
+    rec = re.compile(r"\[([^\[\]]*)\]")
+    fld = re.compile(r"(\w+)\s*\|->\s*(\"[^\"]*\"|-?\d+|TRUE|FALSE|<<[-\d,\s]*>>)")
+    out = []
+    for r in rec.findall(body or ""):
+        d = {}
+        for k, v in fld.findall(r):
+            if v.startswith('"'):
+                d[k] = v[1:-1]
+            elif v.startswith("<<"):
+                d[k] = [int(x) for x in v[2:-2].split(",") if x.strip()]
+            elif v in ("TRUE", "FALSE"):
+                d[k] = v == "TRUE"
+            else:
+                d[k] = int(v)
+        out.append(d)
+    return out
